@@ -1,24 +1,25 @@
 //go:build verif
 
 // Machine-checked contracts of the random source the library draws from (C04, C18): each function is the namesake of
-// math/rand/v2, called once with the same argument. Comments only.
+// math/rand/v2, called once with the same argument - the top-level functions, which are safe for concurrent use (C13); a
+// generator of the library's own would be shared by every goroutine that draws. Comments only.
 
 package xrand
 
 //@ func IntN
-//@   props C04 C18
+//@   props C04 C18 C13
 //@   binds n
 //@   scope n
 //@   maypanic
 //@   track call.*
-//@   ensures [draws-from-the-namesake|C04,C18] count(call.ANY) == 1 && called(call.IntN) && arg(call.IntN, 0) == n && result == res(call.IntN)
+//@   ensures [draws-from-the-namesake|C04,C18,C13] count(call.ANY) == 1 && called(call.IntN) && arg(call.IntN, 0) == n && result == res(call.IntN)
 
 //@ func Int64
-//@   props C04 C18
+//@   props C04 C18 C13
 //@   track call.*
-//@   ensures [draws-from-the-namesake|C04,C18] count(call.ANY) == 1 && called(call.Int64) && result == res(call.Int64)
+//@   ensures [draws-from-the-namesake|C04,C18,C13] count(call.ANY) == 1 && called(call.Int64) && result == res(call.Int64)
 
 //@ func Float64
-//@   props C04 C18
+//@   props C04 C18 C13
 //@   track call.*
-//@   ensures [draws-from-the-namesake|C04,C18] count(call.ANY) == 1 && called(call.Float64) && result == res(call.Float64)
+//@   ensures [draws-from-the-namesake|C04,C18,C13] count(call.ANY) == 1 && called(call.Float64) && result == res(call.Float64)
